@@ -6,6 +6,7 @@ import (
 	"math/rand"
 	"strconv"
 	"strings"
+	"unicode/utf8"
 )
 
 // Kind classifies a template token; it selects the hostile replacements.
@@ -246,6 +247,11 @@ func init() {
 	// ---- scripts
 	add(t("EVAL", "EVAL", 0, w("EVAL"), lua("return tile38.call('set', KEYS[1], ARGV[1], 'POINT', 33, -112)"), in("1"), k("fleet"), id("ev1")))
 	add(t("EVAL.table", "EVAL", 0, w("EVAL"), lua("return {1, 'two', {3, 'four'}, true}"), in("0")))
+	add(t("EVAL.echo", "EVAL", FRead, w("EVAL"), lua("return {ARGV[1], KEYS[1], #ARGV[1]}"), in("1"), k("fleet"), v("a \"quoted\" \\ value")))
+	add(t("EVAL.number", "EVAL", FRead, w("EVAL"), lua("return tonumber(ARGV[1])"), in("0"), n("12.75")))
+	add(t("EVAL.status", "EVAL", FRead, w("EVAL"), lua("return {ok = ARGV[1]}"), in("0"), v("FINE")))
+	add(t("EVAL.error", "EVAL", FRead, w("EVAL"), lua("return {err = ARGV[1]}"), in("0"), v("custom failure")))
+	add(t("EVAL.bool", "EVAL", FRead, w("EVAL"), lua("return ARGV[1] == 'x'"), in("0"), v("x")))
 	add(t("EVALRO", "EVALRO", FRead, w("EVALRO"), lua(ScriptBody), in("1"), k("fleet"), id("truck1")))
 	add(t("EVALNA", "EVALNA", FRead, w("EVALNA"), lua("return ARGV[1] .. ':' .. #KEYS"), in("1"), k("fleet"), v("x")))
 	add(t("EVALSHA", "EVALSHA", FScript, w("EVALSHA"), sha(ScriptSha), in("1"), k("fleet"), id("truck1")))
@@ -466,6 +472,15 @@ func Shapes(tm *Tmpl, rng *rand.Rand, perTok int, full bool) []Shape {
 			a[i] = h[j]
 			out = append(out, Shape{"garble@" + strconv.Itoa(i) + ":" + shortName(h[j]), a})
 		}
+		if tm.Toks[i].K == Word && isAreaWord(base[i]) && areaPosition(base, i) {
+			for _, aw := range AreaWords {
+				if !strings.EqualFold(aw, base[i]) {
+					a := cp()
+					a[i] = aw
+					out = append(out, Shape{"area@" + strconv.Itoa(i) + ":" + aw, a})
+				}
+			}
+		}
 		if tm.Toks[i].K == Word && (full || rng.Intn(3) == 0) {
 			a := cp()
 			a[i] = OptionWords[rng.Intn(len(OptionWords))]
@@ -473,6 +488,39 @@ func Shapes(tm *Tmpl, rng *rand.Rand, perTok int, full bool) []Shape {
 		}
 	}
 	return out
+}
+
+// AreaWords are the area-type words of the search commands (GEO is accepted by
+// the type table of WITHIN/INTERSECTS).
+var AreaWords = []string{"POINT", "CIRCLE", "BOUNDS", "HASH", "TILE", "MVT", "QUADKEY", "GET", "OBJECT", "SECTOR", "GEO", "ROAM"}
+
+func isAreaWord(s string) bool {
+	for _, a := range AreaWords {
+		if strings.EqualFold(a, s) {
+			return true
+		}
+	}
+	return false
+}
+
+// areaPosition: the token is the area type of a search-like command (not the
+// output selector BOUNDS/POINTS or a SET object type).
+func areaPosition(args []string, i int) bool {
+	switch strings.ToUpper(args[0]) {
+	case "NEARBY", "WITHIN", "INTERSECTS", "SETHOOK", "SETCHAN", "TEST":
+	default:
+		return false
+	}
+	// the last area word in the command, or any area word for TEST
+	if strings.ToUpper(args[0]) == "TEST" {
+		return true
+	}
+	for j := i + 1; j < len(args); j++ {
+		if isAreaWord(args[j]) && !strings.EqualFold(args[j], "GET") {
+			return false
+		}
+	}
+	return true
 }
 
 func lowerFirst(a []string) []string {
@@ -511,6 +559,12 @@ func CommandWord(args []string) string {
 		return sb.String()
 	}
 	out := clean(args[0])
+	if out == "" {
+		out = "EMPTY"
+		if args[0] != "" {
+			out = "ODD"
+		}
+	}
 	for _, a := range args[1:] {
 		switch strings.ToUpper(a) {
 		case "SECTOR", "CIRCLE", "OBJECT", "BOUNDS", "HASH", "TILE", "MVT", "QUADKEY", "GEO", "ROAM", "POINT", "WHERE", "WHEREIN", "WHEREEVAL", "WHEREEVALSHA", "RETURN", "BUFFER", "CLIPBY", "SPARSE":
@@ -545,6 +599,7 @@ func StateCommands(name string) [][]string {
 		{"SET", "fleet", "bad\xff\xfeutf", "STRING", "val\xffue \"q\" \\ \n end"},
 		{"SET", `we"ird\key`, "id é", "FIELD", "spd", "-0.5", "POINT", "10", "20"},
 		{"SET", "other", "o1", "POINT", "1", "2"},
+		{"SET", "k\xffey\n", "i1", "FIELD", "f\xfe", "s\xfd", "POINT", "3", "4"},
 	}
 	if name == "hooks" {
 		c = append(c,
@@ -555,4 +610,33 @@ func StateCommands(name string) [][]string {
 		)
 	}
 	return c
+}
+
+// NormString maps a byte string to what a JSON string can carry: every byte
+// that is not part of valid UTF-8 becomes U+FFFD (one per byte, as encoding/json
+// does on both encode and decode).
+func NormString(s string) string {
+	ok := true
+	for i := 0; i < len(s); {
+		r, n := utf8.DecodeRuneInString(s[i:])
+		if r == utf8.RuneError && n == 1 {
+			ok = false
+			break
+		}
+		i += n
+	}
+	if ok {
+		return s
+	}
+	var sb strings.Builder
+	for i := 0; i < len(s); {
+		r, n := utf8.DecodeRuneInString(s[i:])
+		if r == utf8.RuneError && n == 1 {
+			sb.WriteRune(utf8.RuneError)
+		} else {
+			sb.WriteString(s[i : i+n])
+		}
+		i += n
+	}
+	return sb.String()
 }
